@@ -40,3 +40,8 @@ package assert
 //@ func HasAssertionFailure
 //@   props C07 C11
 //@   ensures result == ifOk(err, closure("assert.HasAssertionFailure$1"))
+
+// C19: the standard hint contributed by assertion failures
+//@ method (*withAssertionFailure).ErrorHint
+//@   props C19
+//@   ensures result == AssertionErrorHint + stdstrings.IssueReferral
